@@ -6,13 +6,13 @@ HOOK_COMMITS = ["59391db"]
 
 CHECKS = {
  "C01": dict(tech="model-based stateful property testing (proptest): BDD operation histories vs. truth-table oracle",
-   text="Generated search: random builder configurations (order permutation, both ITE cache kinds incl. 1..16-slot lossy caches, tiny and default unique tables) x <=60-operation histories; every returned diagram is read back node by node into a 256-bit truth table and compared with the oracle value of the operation's definition; the whole pool is re-read at checkpoints and at the end. Falsification only: no proof of absence, sizes bounded (<=8 variables).",
+   text="Generated search: random builder configurations (order permutation, both ITE cache kinds incl. 1..16-slot lossy caches, tiny and default unique tables) x <=60-operation histories; every returned diagram is read back node by node into a 256-bit truth table and compared with the oracle value of the operation's definition; the whole pool is re-read at checkpoints and at the end. Histories include compile_cnf / compile_logical_expr / compile_plan / compile_cnf_with_assignments and operand lists of up to 80 entries. Falsification only: no proof of absence, sizes bounded (<=8 variables).",
    note="Trusted: the harness's truth-table oracle and BddPtr walker (unit-tested against brute force); proptest RNG. Functions over <= 8 variables, <= 60 ops.", ref="5/C01"),
  "C02": dict(tech="model-based property testing: canonicity map keyed by the truth table read off each diagram (both directions of the iff) + unique table driven against a key->address model with colliding hashes at small and mid sizes + default-capacity growth run",
    text="Generated search in four layers: builder histories with 1..64-slot unique tables (pointer identity keyed by the walked truth table, inequality against every diagram of another function, shape walk, re-request of every node after growth), the table itself against a key->address model under colliding hashes and repeated growth (<=40 keys), the table at 200..4000 keys with capacities 1..1024, and default-capacity builders pushed past the 131072-slot growth thresholds. Falsification only.",
    note="Trusted: oracle truth tables, walker, hook capacity override (feature verif-hooks) which only changes the initial table size.", ref="5/C02"),
  "C06": dict(tech="property-based differential testing: top-down compiler (both node stores) vs. brute-force CNF truth table, plus metamorphic conditioning of results and their negations",
-   text="Generated search: random CNFs (edge cases, repeated gadgets, contradiction cores that unit propagation alone does not refute) x random decision orders x both node stores; false constant iff unsatisfiable, walked truth table equals the CNF's, no path repeats a variable, conditioning of the result and of its negation equals the cofactor for every (variable, value), chained conditioning, further CNFs compiled in the same builders. Falsification only; n <= 7.",
+   text="Generated search: random CNFs (edge cases, repeated gadgets, contradiction cores that unit propagation alone does not refute) x random decision orders x both node stores; false constant iff unsatisfiable, walked truth table equals the CNF's, no path repeats a variable, conditioning of the result and of its negation equals the cofactor for every (variable, value), chained conditioning, further CNFs compiled in the same builders; a further sub-check compiles CNFs over 20..34 variables (thousands of cached components) and holds the result to the uniform measure of the bottom-up compilation of the same CNF and to evaluation on assignments. Falsification only; truth-table part n <= 7.",
    note="Trusted: harness CNF evaluator/truth tables, BddPtr walker. Semantic store checked over the 64-bit prime only.", ref="5/C06"),
  "C08": dict(tech="property-based testing against brute-force weighted sums with exact integer / finite-field weights and a path-shape walker",
    text="Generated search: BDDs from random histories under random orders (level-skipping at top/middle/bottom measured), every admissible n_s, arbitrary non-normalised integer weights and boundary residues: same truth table, every path tests exactly the order prefix, counts equal brute force exactly; smoothed results are smoothed again (same and longer prefixes). Falsification only; n <= 8.",
@@ -36,7 +36,7 @@ CHECKS = {
    text="Generated search on the compressing builder (with a Rebuild-by-cubes op as an independent construction route and tiny unique tables): every reachable node is checked for non-false, disjoint, exhaustive primes, variable scoping against the harness's own in-order numbering of the vtree, distinct subs, trimming, and equal functions => pointer equality (results, rebuilds, negations); the first decision-node results are also conditioned on every literal and the cofactors held to the same checks; dense random truth tables give nodes with more than 20 elements. Falsification only; <= 8 variables.",
    note="Trusted: ShapeInfo (harness vtree numbering), walker, truth tables. Library predicates is_canonical etc. are only recorded.", ref="5/C04"),
  "C05": dict(tech="property-based differential testing: every bottom-up compilation route vs. the harness's own CNF / expression / plan evaluators",
-   text="Generated search: CNFs (all edge cases) through BDD compile (random order, both caches), SDD compile (random and dtree-derived vtrees), dtree plans on both builders, compile-under-assignment vs compile-then-condition (pointer-equal + iterated cofactor); random expressions (7 constructors) and plans (8 constructors) on both builders. Falsification only; <= 7 variables.",
+   text="Generated search: CNFs (all edge cases) through BDD compile (random order, both caches), SDD compile (random and dtree-derived vtrees), dtree plans on both builders, compile-under-assignment vs compile-then-condition (pointer-equal + iterated cofactor); random expressions (7 constructors) and plans (8 constructors) on both builders. A further sub-check compiles CNFs over up to 200 variables (labels crossing 32/64/128) and reads the diagrams on sampled and clause-falsifying assignments. Falsification only; truth-table part <= 7 variables.",
    note="Trusted: harness evaluators and walkers. CNFs without clauses are not sent through DTree::from_cnf; FORCE not used with empty clauses.", ref="5/C05"),
  "C07": dict(tech="property-based differential testing of weighted counts across representations against exact brute-force semiring sums",
    text="Generated search: a function (random truth table or CNF) as BDDs under 3 orders, SDDs under 2 vtrees (one uncompressed), regular and negated, an SDD from the hash-identified builder, plus both top-down stores (regular and negated); seven semirings with exactly representable normalised weights (all 7 exported primes with boundary residues, two larger Mersenne primes, polynomials truncated at 32 coefficients), each representation counted against the function read off the diagram: every count equals the brute-force sum over models; evaluate() equals the truth table on all assignments; arbitrary weights on canonical BDDs equal the order-aware Shannon sum. Falsification only; n <= 7.",
@@ -60,7 +60,7 @@ CHECKS = {
    text="Generated search: histories of <=40 C-API calls on one manager (three ways of constructing it) interleaved with eq/count/model-count/real/complex/polynomial counts/JSON, plus the one-shot wrappers (cnf_new, cnf_from_dimacs, min-fill order, dtree, vtree, compile, sdd, ddnnf); results are read through the C accessors only and compared with the native results of the same calls (differences between native results and the oracle are recorded, not reported: other properties own them). Falsification only.",
    note="Trusted: extern declarations mirror src/ffi signatures; rlib linking of #[no_mangle] symbols.", ref="5/C18"),
  "C19": dict(tech="property-based black-box testing of the command-line tools as subprocesses on generated files",
-   text="Generated search: formula/weights/config files for weighted_model_count (non-normalised dyadic weights, weight-only names, missing weights, configured orders) compared exactly with brute-force counts; DIMACS and s-expression inputs for both converters, whose JSON output is read by the harness's reader. Falsification only; ~25 ms per process bounds the case count.",
+   text="Generated search: formula/weights/config files for weighted_model_count (non-normalised dyadic weights, weight-only names, missing weights, configured orders) compared exactly with brute-force counts; DIMACS and s-expression inputs for both converters, whose JSON output is read by the harness's reader. Falsification only; Every case runs against the dev-profile and the release-profile build of the tools; ~25 ms per process bounds the case count.",
    note="Trusted: stdout line format, f64 Display round trip, harness brute force and JSON reader. Tools rebuilt from /repo by run_check.sh.", ref="5/C19"),
 }
 
